@@ -203,12 +203,31 @@ func buildTemplateDoc(seed uint64) *document.Document {
 		t2.SetCellText(0, 1, "{{qty}}{{/each}}")
 	}
 	d.AddParagraph("Bye {{name}} {{missing}}")
+	if r.chance(60) {
+		d.AddParagraph("{{#image logo}}")
+		if r.chance(40) {
+			d.AddParagraph("{{#image photo}}")
+		}
+	}
 	d.AddHeader(document.HeaderFooterTypeDefault, "Header {{title}}")
 	return d
 }
 
-func docTemplateData(r *rng) *document.TemplateData {
+// docTemplateData: the data of a rendering, a function of the seed (equal seeds give equal, distinct objects); pictures
+// are given as bytes or as the path of a file under dir
+func docTemplateData(seed uint64, dir string) *document.TemplateData {
+	r := newRng(seed)
 	td := document.NewTemplateData()
+	for i, name := range []string{"logo", "photo"} {
+		switch r.intn(3) {
+		case 0:
+			td.SetImageFromData(name, imageBytes("png", 4+i), nil)
+		case 1:
+			fn := filepath.Join(dir, fmt.Sprintf("c17img%d.png", 4+i))
+			os.WriteFile(fn, imageBytes("png", 4+i), 0644)
+			td.SetImage(name, fn, nil)
+		}
+	}
 	td.SetVariable("title", fmt.Sprintf("T%d", r.intn(100)))
 	td.SetVariable("name", fmt.Sprintf("N%d <&>", r.intn(100)))
 	td.SetVariable("other", fmt.Sprintf("O%d", r.intn(100)))
@@ -307,7 +326,7 @@ func runC17Child(cfg *runCfg) error {
 		docWant := make([]string, len(threads))
 		datas := make([]*document.TemplateData, len(threads))
 		for t := range threads {
-			datas[t] = docTemplateData(dr)
+			datas[t] = docTemplateData(dr.next(), cfg.out)
 		}
 		// expected document renders: sequentially on a second engine with an identical base document
 		te2 := document.NewTemplateEngine()
@@ -456,11 +475,24 @@ func runC17(cfg *runCfg) error {
 		}
 		res.Evaluations++
 		feats["document template history"]++
+		var td *document.TemplateData
+		var tdSeed uint64
 		for k, n := 0, cr.rangeI(2, 4); k < n; k++ {
-			td := docTemplateData(cr)
+			// the data of this rendering: a new object, or the object of the rendering before
+			if td == nil || cr.chance(55) {
+				tdSeed = cr.next()
+				td = docTemplateData(tdSeed, cfg.out)
+			} else {
+				feats["document template rendered again with the same data object"]++
+			}
+			tdBefore := dumpTemplateData(td)
 			d1, err := te.RenderTemplateToDocument("doc", td)
 			if err != nil {
 				fail(ci, "renders", "doc_render_error", err.Error(), nil)
+				break
+			}
+			if after := dumpTemplateData(td); after != tdBefore {
+				fail(ci, "data_unchanged", "data_modified", fmt.Sprintf("render %d of a document template modified its data: %s -> %s", k+1, tdBefore, after), nil)
 				break
 			}
 			if docDumpString(base) != before {
@@ -469,7 +501,7 @@ func runC17(cfg *runCfg) error {
 			}
 			fe := document.NewTemplateEngine()
 			fe.LoadTemplateFromDocument("doc", buildTemplateDoc(docSeed))
-			d2, err := fe.RenderTemplateToDocument("doc", td)
+			d2, err := fe.RenderTemplateToDocument("doc", docTemplateData(tdSeed, cfg.out))
 			if err == nil && docDumpString(d1) != docDumpString(d2) {
 				fail(ci, "render_alone", "doc_render_depends_on_history", fmt.Sprintf("render %d of a document template differs from the render of a fresh engine", k+1), nil)
 				break
